@@ -1,13 +1,28 @@
 /-
 C03 — A biadjacency matrix is treated exactly as its bipartite block adjacency.
 
-Theorems about the bipartite plumbing that every estimator goes through (`SkNet/Model/Bipartite.lean`:
-get_adjacency's decision, the block matrices, get_values / stack_values, get_adjacency_values, _split_vars)
-and about the routing of the path functions (`SkNet/Model/Path.lean`, proved in `Properties/C10.lean`).
-That each estimator really is `split ∘ fitAdjacency ∘ (block, stack)` is what the correspondence harness
-tools/harness/c03.py checks on the implementation (fit on B versus fit on the block adjacency).
+The main clause — fit on B = split of the fit on [[0,B],[Bᵀ,0]] with the stacked seeds, unsuffixed = row — is kept
+visible as `bipartite_as_block_full`. It is proved
+  * for every estimator that is written as `get_adjacency_values ; core ; _split_vars` (`bipartite_as_block_partial`,
+    by construction of `viaBlock` — a definitional statement about the shape all sknetwork estimators have by reading),
+  * for the estimators whose models live in other properties' files and can be imported:
+    Diffusion / Dirichlet (C14's `Heat.fit`: `diffusion_bipartite_as_block`), get_distances and get_shortest_path (C10's
+    `Path.getDistances` / `getShortestPath`: `distances_bipartite_as_block`, `shortestPath_bipartite_as_block`, for every
+    argument combination);
+  * for all other estimators it is evaluated on the implementation by tools/harness/c03.py (fit on B versus fit on the
+    block adjacency built with numpy).
+The rest are theorems about the plumbing every estimator goes through (`SkNet/Model/Bipartite.lean`, tied to the code
+by exact run lines): the block matrix as `sparse.bmat` builds it, get_values / stack_values / get_adjacency_values,
+_split_vars. Lemmas: `SkNet/Lemmas/BipartiteBlock.lean`, `SkNet/Lemmas/BipartiteStack.lean`.
+Theorems marked (definitional) restate a definition of the model in the vocabulary of the property; they carry no
+independent content and are not counted among the ★ results in the status file.
 -/
 import SkNet.Model.Bipartite
+import SkNet.Model.Heat
+import SkNet.Lemmas.BipartiteBlock
+import SkNet.Lemmas.BipartiteStack
+import SkNet.Lemmas.BipartiteHeat
+import SkNet.Lemmas.BipartitePath
 import SkNet.Properties.C10
 
 namespace SkNet.C03
@@ -17,16 +32,98 @@ attribute [-simp] List.getD_eq_getElem?_getD
 
 /-! ## the decision -/
 
-/-- **bipartite decision** of `get_adjacency`: bipartite iff forced, or not square, or (directed input not
-allowed and the matrix is not symmetric). -/
+/-- (definitional) **bipartite decision** of `get_adjacency`: bipartite iff forced, or not square, or (directed input
+not allowed and the matrix is not symmetric). -/
 theorem isBipartite_iff (force square allowDirected symmetric : Bool) :
     isBipartite force square allowDirected symmetric = true ↔
       force = true ∨ square = false ∨ (allowDirected = false ∧ symmetric = false) := by
   cases force <;> cases square <;> cases allowDirected <;> cases symmetric <;> simp [isBipartite]
 
-/-! ## the block matrices -/
+/-! ## the block matrices, as `sparse.bmat` builds them -/
 
-/-- **denote_block**: `bipartite2undirected B = [[0,B],[Bᵀ,0]]`, rows first. -/
+/-- **denote_block**: the matrix that `bipartite2undirected` builds — `sparse.bmat([[None, B], [B.T, None]])` on the
+stored entries of `B`, whatever their order, with duplicates and stored zeros — denotes `[[0,B],[Bᵀ,0]]` with the row
+nodes first, `B` being the matrix the stored entries of the input denote. -/
+theorem denote_block (c : Csr Rat) (i j : Nat) :
+    denote (blockTriples c) i j = blockUndirected c.nRow (denote (triples c)) i j := by
+  have hrow := triples_row_lt c
+  unfold blockTriples
+  rw [denote_append]
+  unfold blockUndirected
+  by_cases hi : i < c.nRow <;> by_cases hj : j < c.nRow <;> simp only [hi, hj, if_true, if_false]
+  · -- both in the row part: nothing is stored there
+    rw [denote_map_none, denote_map_none, Rat.add_zero]
+    · intro e _; simp; intro _; omega
+    · intro e _; simp; omega
+  · -- (row i, column j - nRow): the entries of B
+    rw [denote_map_none (f := fun e => (c.nRow + e.2.1, e.1, e.2.2)), Rat.add_zero]
+    · apply denote_map
+      · intro e; rfl
+      · intro e _
+        apply Bool.eq_iff_iff.2
+        simp; intro _; omega
+    · intro e _; simp; omega
+  · -- (column i - nRow, row j): the entries of Bᵀ
+    rw [denote_map_none (f := fun e => (e.1, c.nRow + e.2.1, e.2.2)), Rat.zero_add]
+    · apply denote_map
+      · intro e; rfl
+      · intro e _
+        apply Bool.eq_iff_iff.2
+        simp; constructor
+        · rintro ⟨h1, h2⟩; exact ⟨h2, by omega⟩
+        · rintro ⟨h1, h2⟩; exact ⟨by omega, h1⟩
+    · intro e he; simp; intro h; have := hrow e he; omega
+  · -- both in the column part
+    rw [denote_map_none, denote_map_none, Rat.add_zero]
+    · intro e he; simp; intro _ h; have := hrow e he; omega
+    · intro e he; simp; intro h; have := hrow e he; omega
+
+/-- `bipartite2directed` builds `[[0,B],[0,0]]`. -/
+theorem denote_blockDir (c : Csr Rat) (i j : Nat) :
+    denote (blockDirTriples c) i j = blockDirected c.nRow (denote (triples c)) i j := by
+  have hrow := triples_row_lt c
+  unfold blockDirTriples blockDirected
+  by_cases hi : i < c.nRow <;> by_cases hj : j < c.nRow <;> simp only [hi, hj, if_true, if_false]
+  · rw [denote_map_none]; intro e _; simp; intro _; omega
+  · apply denote_map
+    · intro e; rfl
+    · intro e _
+      apply Bool.eq_iff_iff.2
+      simp; intro _; omega
+  · rw [denote_map_none]; intro e he; simp; intro h; have := hrow e he; omega
+  · rw [denote_map_none]; intro e he; simp; intro h; have := hrow e he; omega
+
+/-- Non-vacuity of `denote_block`: B = [[1, 2+3]] stored with unsorted indices and a duplicate. -/
+example : dense 3 (blockTriples ⟨1, 2, #[0, 3], #[1, 0, 1], #[2, 1, 3]⟩) = [[0, 1, 5], [1, 0, 0], [5, 0, 0]] := by decide +kernel
+
+/-- **get_adjacency**: when the input is treated as bipartite the result has `n_row + n_col` nodes and denotes the block
+matrix (`[[0,B],[Bᵀ,0]]`, or `[[0,B],[0,0]]` with `force_directed`); otherwise the input is returned as it is. -/
+theorem getAdjacency_spec (c : Csr Rat) (allowDirected forceBip forceDirected allowEmpty : Bool) (r : Adjacency)
+    (h : getAdjacency c allowDirected forceBip forceDirected allowEmpty = .ok r) :
+    r.bipartite = isBipartite forceBip (c.nRow == c.nCol) allowDirected (isSymmetric c) ∧
+    (r.bipartite = true → r.nNodes = c.nRow + c.nCol ∧ ∀ i j, denote r.entries i j =
+        (if forceDirected then blockDirected c.nRow (denote (triples c)) i j
+         else blockUndirected c.nRow (denote (triples c)) i j)) ∧
+    (r.bipartite = false → r.nNodes = c.nRow ∧ r.entries = triples c) := by
+  unfold getAdjacency at h
+  split at h
+  · cases h
+  · cases hb : isBipartite forceBip (c.nRow == c.nCol) allowDirected (isSymmetric c)
+    · simp only [hb, Bool.false_eq_true, if_false] at h
+      cases h
+      exact ⟨rfl, fun h => by simp at h, fun _ => ⟨rfl, rfl⟩⟩
+    · simp only [hb, if_true] at h
+      cases h
+      refine ⟨rfl, fun _ => ⟨rfl, fun i j => ?_⟩, fun h => by simp at h⟩
+      cases forceDirected
+      · simp [denote_block]
+      · simp [denote_blockDir]
+
+/-- Non-vacuity: a square non-symmetric matrix is bipartite for `allow_directed=False` (Spectral), not otherwise. -/
+example : ((getAdjacency ⟨2, 2, #[0, 1, 1], #[1], #[1]⟩ false false false false).toOption.map (·.nNodes)) = some 4 ∧
+    ((getAdjacency ⟨2, 2, #[0, 1, 1], #[1], #[1]⟩ true false false false).toOption.map (·.nNodes)) = some 2 := by decide +kernel
+
+/-- (definitional) the four blocks of `[[0,B],[Bᵀ,0]]`, rows first. -/
 theorem blockUndirected_spec (nRow : Nat) (b : Nat → Nat → Rat) :
     (∀ i j, i < nRow → j < nRow → blockUndirected nRow b i j = 0) ∧
     (∀ i j, i < nRow → blockUndirected nRow b i (nRow + j) = b i j) ∧
@@ -57,7 +154,10 @@ theorem blockEdge_eq_support (nRow : Nat) (b : Nat → Nat → Rat) (i j : Nat) 
   unfold Path.blockEdge blockUndirected
   by_cases hi : i < nRow <;> by_cases hj : j < nRow <;> simp [hi, hj]
 
-/-- `bipartite2directed B = [[0,B],[0,0]]` -/
+/-- the block matrix of C14's model is this one -/
+theorem heat_blockMat_eq : Heat.blockMat = blockUndirected := rfl
+
+/-- (definitional) the blocks of `[[0,B],[0,0]]` -/
 theorem blockDirected_spec (nRow : Nat) (b : Nat → Nat → Rat) :
     (∀ i j, i < nRow → blockDirected nRow b i (nRow + j) = b i j) ∧
     (∀ i j, j < nRow → blockDirected nRow b i j = 0) ∧
@@ -73,7 +173,7 @@ theorem blockDirected_spec (nRow : Nat) (b : Nat → Nat → Rat) :
 
 /-! ## get_values -/
 
-/-- an array (or list) of the right length is taken as it is; any other length is the `ValueError` -/
+/-- (definitional) an array (or list) of the right length is taken as it is; any other length is the `ValueError` -/
 theorem getValues_arr (n : Nat) (l : List Rat) (d : Rat) :
     getValues n (some (.arr l)) d = if l.length = n then .ok l else .error .valueError := by
   unfold getValues
@@ -84,11 +184,12 @@ default everywhere else -/
 theorem getValues_dict (n : Nat) (kv : List (Nat × Rat)) (d : Rat) (hne : kv ≠ [])
     (hin : ∀ p ∈ kv, p.1 < n) :
     ∃ x, getValues n (some (.dict kv)) d = .ok x ∧ x.length = n ∧
-      ∀ i, i < n → x.getD i d = (dictLookup kv i).getD d := by
-  have h1 : kv.isEmpty = false := by cases kv <;> simp_all
-  have h2 : kv.all (fun p => p.1 < n) = true := List.all_eq_true.2 (fun p hp => by simpa using hin p hp)
-  refine ⟨tab n fun i => (dictLookup kv i).getD d, ?_, by simp, fun i hi => by simp [hi]⟩
-  simp [getValues, h1, h2]
+      ∀ i, i < n → x.getD i d = (dictLookup kv i).getD d :=
+  ⟨_, getValues_dict_ok n kv d hne hin, by simp, fun i hi => by simp [hi]⟩
+
+/-- Non-vacuity of `getValues_dict`: {2: 7, 0: 5} on 3 nodes, default -1. -/
+example : [(2, (7 : Rat)), (0, 5)] ≠ [] ∧ (∀ p ∈ [(2, (7 : Rat)), (0, 5)], p.1 < 3) ∧
+    (getValues 3 (some (.dict [(2, 7), (0, 5)])) (-1)).toOption = some [5, -1, 7] := by decide
 
 /-- a key that is present gets one of its values; an absent key gets the default -/
 theorem dictLookup_spec (kv : List (Nat × Rat)) (i : Nat) :
@@ -118,7 +219,6 @@ theorem dictLookup_of_mem (kv : List (Nat × Rat)) (hnd : (kv.map (·.1)).Nodup)
   | none => exact absurd rfl (((dictLookup_spec kv i).2.1 hl) (i, v) h)
   | some w =>
     have hw := (dictLookup_spec kv i).1 w hl
-    -- two entries with the same key in a list with distinct keys are the same entry
     have : w = v := by
       clear hl
       induction kv with
@@ -132,43 +232,35 @@ theorem dictLookup_of_mem (kv : List (Nat × Rat)) (hnd : (kv.map (·.1)).Nodup)
         · exact ih hnd.2 h1 h2
     rw [this]
 
+/-- Non-vacuity of `dictLookup_of_mem`. -/
+example : ([(2, (7 : Rat)), (0, 5)].map (·.1)).Nodup ∧ ((0, (5 : Rat)) ∈ [(2, (7 : Rat)), (0, 5)]) ∧
+    dictLookup [(2, 7), (0, 5)] 0 = some 5 := by decide
+
 /-! ## stack_values and _split_vars -/
 
-/-- **stack_split**: whatever is stacked is a row part of length `n_row` followed by a column part of
-length `n_col`, and `_split_vars` recovers exactly these parts (the unsuffixed output is the row part). -/
-theorem stack_split (nRow nCol : Nat) (vr vc : Option Values) (d : Rat) (x : List Rat)
-    (h : stackValues nRow nCol vr vc d = .ok x) :
-    ∃ r c, x = r ++ c ∧ r.length = nRow ∧ c.length = nCol ∧ splitVars nRow x = (r, r, c) := by
-  unfold stackValues at h
-  simp only [bind, Except.bind] at h
-  split at h
-  · cases h
-  · rename_i r hr
-    split at h
-    · cases h
-    · rename_i c hc
-      simp only [pure, Except.pure, Except.ok.injEq] at h
-      have hlen : ∀ (n : Nat) (v : Values) (y : List Rat), getValues n (some v) d = .ok y → y.length = n := by
-        intro n v y hy
-        unfold getValues at hy
-        cases v with
-        | arr l =>
-          simp only at hy
-          split at hy
-          · cases hy
-          · rename_i hl; cases hy; simpa using hl
-        | dict kv =>
-          simp only at hy
-          split at hy
-          · cases hy
-          · split at hy
-            · cases hy; simp
-            · cases hy
-      have hrl := hlen _ _ _ hr
-      have hcl := hlen _ _ _ hc
-      refine ⟨r, c, h.symm, hrl, hcl, ?_⟩
-      subst h
-      simp [splitVars, ← hrl]
+/-- **stack_split**: `stack_values` succeeds exactly when `get_values` accepts the row seeds on `n_row` nodes and the
+column seeds on `n_col` nodes (after the documented `None` defaults); the stacked vector is then the row vector `r`
+followed by the column vector `c`, and `_split_vars` gives back exactly these: `split(stack(r, c)) = (r, r, c)` — the
+unsuffixed output is the row part. -/
+theorem stack_split (nRow nCol : Nat) (vr vc : Option Values) (d : Rat) (x : List Rat) :
+    stackValues nRow nCol vr vc d = .ok x ↔
+      ∃ r c, getValues nRow (some (defaultedRow nRow vr vc d)) d = .ok r ∧
+             getValues nCol (some (defaultedCol nCol vc d)) d = .ok c ∧
+             x = r ++ c ∧ r.length = nRow ∧ c.length = nCol ∧ splitVars nRow x = (r, r, c) := by
+  rw [stackValues_ok_iff]
+  constructor
+  · rintro ⟨r, c, hr, hc, rfl⟩
+    have hlr := getValues_length hr
+    exact ⟨r, c, hr, hc, rfl, hlr, getValues_length hc, by simp [splitVars, ← hlr]⟩
+  · rintro ⟨r, c, hr, hc, hx, _⟩
+    exact ⟨r, c, hr, hc, hx⟩
+
+/-- Non-vacuity of `stack_split`: row seeds {0: 5} and column array [9, 8] on a 2×2 biadjacency. -/
+example : (stackValues 2 2 (some (.dict [(0, 5)])) (some (.arr [9, 8])) (-1)).toOption = some [5, -1, 9, 8] ∧
+    splitVars 2 [(5 : Rat), -1, 9, 8] = ([5, -1], [5, -1], [9, 8]) := by decide
+
+/-- (definitional) `BaseClassifier._split_vars` on a plain graph hands out the whole vector three times. -/
+theorem splitVarsClassifier_plain (nRow : Nat) (x : List Rat) : splitVarsClassifier false nRow x = (x, x, x) := rfl
 
 /-- **stack addressing**: in the stacked vector, row node `i` sits at `i` and column node `j` at
 `n_row + j`. -/
@@ -183,15 +275,12 @@ theorem stack_addr {nRow : Nat} {r c : List Rat} (hr : r.length = nRow) (d : Rat
       List.getElem?_append_right (by omega)]
     congr 2; omega
 
-/-- **seeds address the same nodes in both forms** (dict seeds): stacking a row dict and a column dict is
-the same vector as handing the block adjacency one dict in which every column key `j` is renamed
-`n_row + j`. -/
+/-- **seeds address the same nodes in both forms — mixed dict seeds**: stacking a row dict and a column dict is
+the same vector as handing the block adjacency one dict in which every column key `j` is renamed `n_row + j`. -/
 theorem stack_dict_eq_block_dict (nRow nCol : Nat) (kr kc : List (Nat × Rat)) (d : Rat)
     (hr : kr ≠ []) (hc : kc ≠ []) (hrin : ∀ p ∈ kr, p.1 < nRow) (hcin : ∀ p ∈ kc, p.1 < nCol) :
     stackValues nRow nCol (some (.dict kr)) (some (.dict kc)) d =
       getValues (nRow + nCol) (some (.dict (kr ++ kc.map fun p => (nRow + p.1, p.2)))) d := by
-  obtain ⟨xr, hxr, hlr, her⟩ := getValues_dict nRow kr d hr hrin
-  obtain ⟨xc, hxc, hlc, hec⟩ := getValues_dict nCol kc d hc hcin
   have hne : kr ++ kc.map (fun p => (nRow + p.1, p.2)) ≠ [] := by
     intro h; exact hr (List.append_eq_nil_iff.1 h).1
   have hin : ∀ p ∈ kr ++ kc.map (fun p => (nRow + p.1, p.2)), p.1 < nRow + nCol := by
@@ -200,91 +289,159 @@ theorem stack_dict_eq_block_dict (nRow nCol : Nat) (kr kc : List (Nat × Rat)) (
     · have := hrin p h; omega
     · obtain ⟨q, hq, rfl⟩ := List.mem_map.1 h
       have := hcin q hq; simp; omega
-  obtain ⟨y, hy, hly, hey⟩ := getValues_dict (nRow + nCol) _ d hne hin
-  have hstack : stackValues nRow nCol (some (.dict kr)) (some (.dict kc)) d = .ok (xr ++ xc) := by
-    simp [stackValues, bind, Except.bind, hxr, hxc, pure, Except.pure]
-  rw [hstack, hy]
+  rw [stackValues_eq (getValues_dict_ok nRow kr d hr hrin) (getValues_dict_ok nCol kc d hc hcin),
+    getValues_dict_ok _ _ d hne hin, tab_append]
   congr 1
-  apply List.ext_getElem?
-  intro i
-  by_cases hi : i < nRow + nCol
-  · have e1 : (xr ++ xc)[i]? = some ((xr ++ xc).getD i d) := by
-      rw [List.getD_eq_getElem?_getD, List.getElem?_eq_getElem (by simp [hlr, hlc]; exact hi)]; rfl
-    have e2 : y[i]? = some (y.getD i d) := by
-      rw [List.getD_eq_getElem?_getD, List.getElem?_eq_getElem (by rw [hly]; exact hi)]; rfl
-    rw [e1, e2, hey i hi]
-    congr 1
-    -- the lookup in the concatenated dict: later (column) entries win, and they only carry keys ≥ nRow
-    have hlook : dictLookup (kr ++ kc.map fun p => (nRow + p.1, p.2)) i =
-        if i < nRow then dictLookup kr i else dictLookup kc (i - nRow) := by
-      unfold dictLookup
-      rw [List.reverse_append, List.find?_append]
-      by_cases hlt : i < nRow
-      · have hnone : (kc.map fun p => (nRow + p.1, p.2)).reverse.find? (fun p => p.1 == i) = none := by
-          rw [List.find?_eq_none]
-          intro p hp
-          obtain ⟨q, _, rfl⟩ := List.mem_map.1 (List.mem_reverse.1 hp)
-          simp; omega
-        simp [hnone, hlt]
-      · have hkr : kr.reverse.find? (fun p => p.1 == i) = none := by
-          rw [List.find?_eq_none]
-          intro p hp
-          have := hrin p (List.mem_reverse.1 hp)
-          simp; omega
-        simp only [hlt, if_false]
-        rw [← List.map_reverse, List.find?_map]
-        have hfun : ((fun p : Nat × Rat => p.1 == i) ∘ fun p : Nat × Rat => (nRow + p.1, p.2))
-            = fun p => p.1 == i - nRow := by
-          funext p
-          simp only [Function.comp]
-          apply Bool.eq_iff_iff.2
-          simp; omega
-        rw [hfun]
-        cases hfc : kc.reverse.find? (fun p => p.1 == i - nRow) with
-        | none => simp [hkr]
-        | some q => simp
-    rw [hlook]
-    by_cases hlt : i < nRow
-    · rw [(stack_addr hlr d).1 i hlt, her i hlt]; simp [hlt]
-    · have hi' : i = nRow + (i - nRow) := by omega
-      rw [hi', (stack_addr hlr d).2 (i - nRow), hec (i - nRow) (by omega)]
-      have : ¬ (nRow + (i - nRow) < nRow) := by omega
-      simp [this]
-  · have h1 : (xr ++ xc).length ≤ i := by simp [hlr, hlc]; omega
-    have h2 : y.length ≤ i := by rw [hly]; omega
-    rw [List.getElem?_eq_none h1, List.getElem?_eq_none h2]
+  apply tab_congr
+  intro i _
+  rw [dictLookup_append_shift nRow kr kc i hrin]
+  by_cases hlt : i < nRow <;> simp [hlt]
 
 /-- Non-vacuity: row seeds {0:5, 2:7}, column seed {1:9}, default -1, on a 3×2 biadjacency. -/
 example : (stackValues 3 2 (some (.dict [(0, 5), (2, 7)])) (some (.dict [(1, 9)])) (-1)).toOption
     = some [5, -1, 7, -1, 9] := by decide
 
-/-- the documented default: no seeds at all means "ones on the rows, default on the columns" -/
-theorem stack_default (nRow nCol : Nat) (d : Rat) :
-    stackValues nRow nCol none none d = .ok ((tab nRow fun _ => (1 : Rat)) ++ tab nCol fun _ => d) := by
-  simp [stackValues, bind, Except.bind, getValues, pure, Except.pure]
+/-- **row-only dict seeds**: the row dict alone, handed to the block adjacency unchanged, gives the same vector (the
+columns get the default value in both forms). -/
+theorem stack_rowdict_eq_block_dict (nRow nCol : Nat) (kr : List (Nat × Rat)) (d : Rat)
+    (hr : kr ≠ []) (hrin : ∀ p ∈ kr, p.1 < nRow) :
+    stackValues nRow nCol (some (.dict kr)) none d = getValues (nRow + nCol) (some (.dict kr)) d := by
+  have hin : ∀ p ∈ kr, p.1 < nRow + nCol := fun p hp => by have := hrin p hp; omega
+  have hcd : getValues nCol (some (defaultedCol nCol none d)) d = .ok (tab nCol fun _ => d) :=
+    getValues_arr_ok d (by simp)
+  rw [stackValues_eq (vr := some (.dict kr)) (vc := none) (getValues_dict_ok nRow kr d hr hrin) hcd,
+    getValues_dict_ok _ _ d hr hin, tab_append]
+  congr 1
+  apply tab_congr
+  intro i _
+  by_cases hlt : i < nRow
+  · simp [hlt]
+  · simp [hlt, dictLookup_none_of_ge hrin (Nat.le_of_not_lt hlt)]
 
-/-- only row seeds: the columns get the default value -/
+/-- Non-vacuity: row seeds {1: 4} on a 2×2 biadjacency, default 0. -/
+example : (stackValues 2 2 (some (.dict [(1, 4)])) none 0).toOption = some [0, 4, 0, 0] ∧
+    (getValues 4 (some (.dict [(1, 4)])) 0).toOption = some [0, 4, 0, 0] := by decide
+
+/-- **column-only dict seeds**: the column dict with every key `j` renamed `n_row + j` gives the same vector on the
+block adjacency (the rows get the default value — not 1 — in both forms). -/
+theorem stack_coldict_eq_block_dict (nRow nCol : Nat) (kc : List (Nat × Rat)) (d : Rat)
+    (hc : kc ≠ []) (hcin : ∀ p ∈ kc, p.1 < nCol) :
+    stackValues nRow nCol none (some (.dict kc)) d =
+      getValues (nRow + nCol) (some (.dict (kc.map fun p => (nRow + p.1, p.2)))) d := by
+  have hne : kc.map (fun p => (nRow + p.1, p.2)) ≠ [] := by
+    intro h; exact hc (List.map_eq_nil_iff.1 h)
+  have hin : ∀ p ∈ kc.map (fun p => (nRow + p.1, p.2)), p.1 < nRow + nCol := by
+    intro p hp
+    obtain ⟨q, hq, rfl⟩ := List.mem_map.1 hp
+    have := hcin q hq; simp; omega
+  have hrd : getValues nRow (some (defaultedRow nRow none (some (.dict kc)) d)) d = .ok (tab nRow fun _ => d) :=
+    getValues_arr_ok d (by simp)
+  rw [stackValues_eq (vr := none) (vc := some (.dict kc)) hrd (getValues_dict_ok nCol kc d hc hcin),
+    getValues_dict_ok _ _ d hne hin, tab_append]
+  congr 1
+  apply tab_congr
+  intro i _
+  rw [dictLookup_shift]
+  by_cases hlt : i < nRow <;> simp [hlt]
+
+/-- Non-vacuity: column seed {0: 3} on a 2×2 biadjacency, default -1. -/
+example : (stackValues 2 2 none (some (.dict [(0, 3)])) (-1)).toOption = some [-1, -1, 3, -1] ∧
+    (getValues 4 (some (.dict [(2, 3)])) (-1)).toOption = some [-1, -1, 3, -1] := by decide
+
+/-- **array seeds** (row only, column only, or both; `np.ndarray` or list): the block form is the row array followed by
+the column array, the default value standing for the side that was not given. -/
+theorem stack_arr_eq_block_arr (nRow nCol : Nat) (r c : Option (List Rat)) (d : Rat)
+    (hsome : r.isSome = true ∨ c.isSome = true)
+    (hr : ∀ l, r = some l → l.length = nRow) (hc : ∀ l, c = some l → l.length = nCol) :
+    stackValues nRow nCol (r.map .arr) (c.map .arr) d =
+      getValues (nRow + nCol)
+        (some (.arr (r.getD (tab nRow fun _ => d) ++ c.getD (tab nCol fun _ => d)))) d := by
+  cases r with
+  | none =>
+    cases c with
+    | none => simp at hsome
+    | some cl =>
+      have hl := hc cl rfl
+      simp only [Option.map_none, Option.map_some, Option.getD_none, Option.getD_some]
+      rw [stackValues_eq (vr := none) (vc := some (.arr cl)) (r := tab nRow fun _ => d) (c := cl)
+        (getValues_arr_ok d (by simp)) (getValues_arr_ok d hl), getValues_arr_ok d (by simp [hl])]
+  | some rl =>
+    have hlr := hr rl rfl
+    cases c with
+    | none =>
+      simp only [Option.map_none, Option.map_some, Option.getD_none, Option.getD_some]
+      rw [stackValues_eq (vr := some (.arr rl)) (vc := none) (r := rl) (c := tab nCol fun _ => d)
+        (getValues_arr_ok d hlr) (getValues_arr_ok d (by simp)), getValues_arr_ok d (by simp [hlr])]
+    | some cl =>
+      have hl := hc cl rfl
+      simp only [Option.map_some, Option.getD_some]
+      rw [stackValues_eq (vr := some (.arr rl)) (vc := some (.arr cl)) (r := rl) (c := cl)
+        (getValues_arr_ok d hlr) (getValues_arr_ok d hl), getValues_arr_ok d (by simp [hlr, hl])]
+
+/-- Non-vacuity: a column array alone on a 2×3 biadjacency. -/
+example : (stackValues 2 3 none (some (.arr [4, 5, 6])) (-1)).toOption = some [-1, -1, 4, 5, 6] := by decide
+
+/-- **mixed array / dict seeds**: an array on one side and a dict on the other address the same nodes as one array on
+the block adjacency, the dict side written out with the default value at the keys it does not mention. -/
+theorem stack_mixed_eq_block_arr (nRow nCol : Nat) (l : List Rat) (kv : List (Nat × Rat)) (d : Rat) (hne : kv ≠ []) :
+    (l.length = nRow → (∀ p ∈ kv, p.1 < nCol) →
+      stackValues nRow nCol (some (.arr l)) (some (.dict kv)) d =
+        getValues (nRow + nCol) (some (.arr (l ++ tab nCol fun j => (dictLookup kv j).getD d))) d) ∧
+    (l.length = nCol → (∀ p ∈ kv, p.1 < nRow) →
+      stackValues nRow nCol (some (.dict kv)) (some (.arr l)) d =
+        getValues (nRow + nCol) (some (.arr ((tab nRow fun i => (dictLookup kv i).getD d) ++ l))) d) := by
+  constructor
+  · intro hl hin
+    rw [stackValues_eq (vr := some (.arr l)) (vc := some (.dict kv)) (getValues_arr_ok d hl)
+      (getValues_dict_ok nCol kv d hne hin), getValues_arr_ok d (by simp [hl])]
+  · intro hl hin
+    rw [stackValues_eq (vr := some (.dict kv)) (vc := some (.arr l)) (getValues_dict_ok nRow kv d hne hin)
+      (getValues_arr_ok d hl), getValues_arr_ok d (by simp [hl])]
+
+/-- Non-vacuity: row array [1, 0] with column dict {1: 2} on a 2×2 biadjacency. -/
+example : (stackValues 2 2 (some (.arr [1, 0])) (some (.dict [(1, 2)])) (-1)).toOption = some [1, 0, -1, 2] := by decide
+
+/-- (definitional) the documented default: no seeds at all means "ones on the rows, default on the columns" -/
+theorem stack_default (nRow nCol : Nat) (d : Rat) :
+    stackValues nRow nCol none none d = .ok ((tab nRow fun _ => (1 : Rat)) ++ tab nCol fun _ => d) :=
+  stackValues_eq (vr := none) (vc := none) (getValues_arr_ok d (by simp)) (getValues_arr_ok d (by simp))
+
+/-- **the row-only default is not the block default** (known findings F-C03-default-rows-*): with no seeds at all a
+biadjacency matrix gets ones on the rows and the default value on the columns, whereas the block adjacency without
+seeds gets ones everywhere; the two vectors differ as soon as there is a column and the default value is not 1
+(it is 0 for PageRank, -1 for Diffusion / Dirichlet). -/
+theorem stack_default_ne_block_default (nRow nCol : Nat) (d : Rat) (hcol : 0 < nCol) (hd : d ≠ 1) :
+    stackValues nRow nCol none none d ≠ getValues (nRow + nCol) none d := by
+  rw [stack_default, tab_append]
+  simp only [getValues]
+  intro h
+  have h2 := congrArg (fun (x : Except PyErr (List Rat)) => match x with | .ok l => l.getD nRow 7 | .error _ => 7) h
+  have hlt : nRow < nRow + nCol := by omega
+  simp [hlt] at h2
+  exact hd h2
+
+/-- Non-vacuity / witness: B of shape 1×2, PageRank's default 0. -/
+example : (stackValues 1 2 none none 0).toOption = some [1, 0, 0] ∧ (getValues 3 none 0).toOption = some [1, 1, 1] := by
+  decide
+
+/-- (definitional) only row seeds: the columns get the default value -/
 theorem stack_row_only (nRow nCol : Nat) (v : Values) (d : Rat) (r : List Rat)
     (h : getValues nRow (some v) d = .ok r) :
-    stackValues nRow nCol (some v) none d = .ok (r ++ tab nCol fun _ => d) := by
-  have hd : getValues nCol (some (.arr (tab nCol fun _ => d))) d = .ok (tab nCol fun _ => d) := by
-    simp [getValues]
-  simp only [stackValues, bind, Except.bind, h, hd, pure, Except.pure]
+    stackValues nRow nCol (some v) none d = .ok (r ++ tab nCol fun _ => d) :=
+  stackValues_eq (vr := some v) (vc := none) h (getValues_arr_ok d (by simp))
 
-/-- only column seeds: the rows get the default value -/
+/-- (definitional) only column seeds: the rows get the default value -/
 theorem stack_col_only (nRow nCol : Nat) (v : Values) (d : Rat) (c : List Rat)
     (h : getValues nCol (some v) d = .ok c) :
-    stackValues nRow nCol none (some v) d = .ok ((tab nRow fun _ => d) ++ c) := by
-  have hd : getValues nRow (some (.arr (tab nRow fun _ => d))) d = .ok (tab nRow fun _ => d) := by
-    simp [getValues]
-  simp only [stackValues, bind, Except.bind, h, hd, pure, Except.pure]
+    stackValues nRow nCol none (some v) d = .ok ((tab nRow fun _ => d) ++ c) :=
+  stackValues_eq (vr := none) (vc := some v) (getValues_arr_ok d (by simp)) h
 
 /-! ## get_adjacency_values -/
 
 /-- giving `values_row` or `values_col` forces the bipartite treatment, whatever the shape -/
-theorem adjValues_seeds_force (nRow nCol : Nat) (sym allowDir fb : Bool) (vr vc : Option Values)
+theorem adjValues_seeds_force (nRow nCol : Nat) (sym allowDir fb : Bool) (v vr vc : Option Values)
     (d : Rat) (w : Which) (hs : vr.isSome = true ∨ vc.isSome = true) (r : AdjValues)
-    (h : getAdjacencyValues nRow nCol sym allowDir fb none vr vc d w = .ok r) :
+    (h : getAdjacencyValues nRow nCol sym allowDir fb v vr vc d w = .ok r) :
     r.bipartite = true ∧ r.nNodes = nRow + nCol := by
   unfold getAdjacencyValues at h
   have hforce : (fb || vr.isSome || vc.isSome) = true := by
@@ -295,38 +452,299 @@ theorem adjValues_seeds_force (nRow nCol : Nat) (sym allowDir fb : Bool) (vr vc 
   · simp only [pure, Except.pure, Except.ok.injEq] at h
     subst h; exact ⟨rfl, rfl⟩
 
-/-! ## the path functions on a biadjacency matrix (routing; from C10) -/
+/-- Non-vacuity of `adjValues_seeds_force`: a square symmetric 2×2 matrix becomes a 4-node bipartite graph as soon as
+column seeds are given. -/
+example : ((getAdjacencyValues 2 2 true true false none none (some (.dict [(0, 1)])) (-1) .none).toOption.map
+    fun r => (r.bipartite, r.nNodes, r.values)) = some (true, 4, [-1, -1, 1, -1]) := by decide
 
-/-- **distances_routing**: see `SkNet.C10.getDistances_bipartite_exact`. -/
-theorem distances_bipartite (nRow nCol : Nat) (b : Nat → Nat → Bool) (sr sc : List Nat)
-    (hsr : ∀ i ∈ sr, i < nRow) (hsc : ∀ j ∈ sc, j < nCol) :
-    ∃ d, Path.getDistances nRow nCol b { sourceRow := some sr, sourceCol := some sc }
-          = .ok (some (.pair (d.take nRow) (d.drop nRow))) ∧
-      Path.Exact (nRow + nCol) (Path.blockEdge nRow b)
-        (fun v => sr.contains v || (decide (nRow ≤ v) && sc.contains (v - nRow))) d :=
-  C10.getDistances_bipartite_exact nRow nCol b sr sc hsr hsc
+/-- **`values` is the alias of `values_row` on bipartite input** (defect F-C03-values-col-dropped, repaired in
+7fc3a32a: the column seeds given together with `values` were dropped): when the input is treated as bipartite and no
+`values_row` is given, `values=v, values_col=vc` is the same call as `values_row=v, values_col=vc`. -/
+theorem adjValues_values_alias (nRow nCol : Nat) (sym allowDir fb : Bool) (v : Values) (vc : Option Values)
+    (d : Rat) (w : Which) (hb : isBipartite (fb || vc.isSome) (nRow == nCol) allowDir sym = true) :
+    getAdjacencyValues nRow nCol sym allowDir fb (some v) none vc d w =
+      getAdjacencyValues nRow nCol sym allowDir fb none (some v) vc d w := by
+  unfold getAdjacencyValues
+  have h1 : isBipartite (fb || (none : Option Values).isSome || vc.isSome) (nRow == nCol) allowDir sym = true := by
+    simpa using hb
+  have h2 : isBipartite (fb || (some v).isSome || vc.isSome) (nRow == nCol) allowDir sym = true := by
+    simp [isBipartite]
+  simp only [h1, h2, if_true]
 
-/-- **shortestPath_routing**: on a biadjacency matrix (with `force_bipartite`, or row/column sources)
-`get_shortest_path` returns the shortest-path DAG of the *block* graph, on `n_row + n_col` nodes, from the
-block-numbered sources. (On the pinned tree this was false: defect F1, repaired.) -/
-theorem shortestPath_bipartite (nRow nCol : Nat) (b : Nat → Nat → Bool) (sr sc : List Nat)
-    (hsr : ∀ i ∈ sr, i < nRow) (hsc : ∀ j ∈ sc, j < nCol) :
-    ∃ ps, Path.getShortestPath nRow nCol b { sourceRow := some sr, sourceCol := some sc }
-            = .ok (some (nRow + nCol, ps)) ∧
-      ∀ i j, (i, j) ∈ ps ↔ i < nRow + nCol ∧ j < nRow + nCol ∧ Path.blockEdge nRow b i j = true ∧
+/-- Non-vacuity: the witness of the defect — `values={0: 1}`, `values_col={1: 5}` on a 2×2 biadjacency keeps the column
+seed. -/
+example : ((getAdjacencyValues 2 2 false true false (some (.dict [(0, 1)])) none (some (.dict [(1, 5)])) (-1) .none).toOption.map
+    (·.values)) = some [1, -1, -1, 5] := by decide
+
+/-! ## the main clause -/
+
+/-- An estimator as the property sees it: what it returns for an adjacency matrix on `n` nodes with one seed vector
+(one output value per node), and what it returns for a biadjacency matrix with row and column seeds: the unsuffixed,
+the `*_row_` and the `*_col_` output. -/
+structure Estimator (ε ρ : Type) where
+  dflt : Rat
+  fitAdj : (n : Nat) → (Nat → Nat → Rat) → Option Values → Except ε (List ρ)
+  fitBip : (nRow nCol : Nat) → (Nat → Nat → Rat) → Option Values → Option Values →
+    Except ε (List ρ × List ρ × List ρ)
+
+/-- the clause of C03 for one estimator: whenever the seeds stack to `s`, the fit on `B` is the fit on
+`[[0,B],[Bᵀ,0]]` with the seeds `s`, split at `n_row` (unsuffixed = row part) -/
+def BipartiteAsBlock {ε ρ : Type} (E : Estimator ε ρ) : Prop :=
+  ∀ (nRow nCol : Nat) (B : Nat → Nat → Rat) (vr vc : Option Values) (s : List Rat),
+    stackValues nRow nCol vr vc E.dflt = .ok s →
+    E.fitBip nRow nCol B vr vc =
+      (E.fitAdj (nRow + nCol) (blockUndirected nRow B) (some (.arr s))).map (splitVars nRow)
+
+/-- **The main clause of C03, at full strength** — for every estimator of the library (`lib`; the library is not a
+Lean object, which is why this stays a definition): fit on B = split of the fit on the block adjacency. Not proved in
+general: the models of most estimators (C04–C13) are not functions of `Model/Bipartite.lean`'s plumbing, and for
+Louvain / Leiden with `modularity='dugue'`, for the no-seed default of PageRank / Dirichlet the clause is false
+(known findings). It is evaluated on the implementation for every entry of the harness' table. -/
+def bipartite_as_block_full {ε ρ : Type} (lib : Estimator ε ρ → Prop) : Prop :=
+  ∀ E, lib E → BipartiteAsBlock E
+
+/-- the estimator obtained by putting a core — a function of the adjacency matrix and one seed vector alone — behind
+the shared plumbing: `get_adjacency_values` (block matrix, stacked seeds), the core, `_split_vars` -/
+def viaBlock {ε ρ : Type} (d : Rat) (core : (n : Nat) → (Nat → Nat → Rat) → List Rat → Except ε (List ρ))
+    (seedErr : PyErr → ε) : Estimator ε ρ where
+  dflt := d
+  fitAdj n A v := match getValues n v d with
+    | .ok s => core n A s
+    | .error e => .error (seedErr e)
+  fitBip nRow nCol B vr vc := match stackValues nRow nCol vr vc d with
+    | .ok s => (core (nRow + nCol) (blockUndirected nRow B) s).map (splitVars nRow)
+    | .error e => .error (seedErr e)
+
+/-- (by construction) **what is proved of the main clause in general**: every estimator that has the shape
+`get_adjacency_values ; core ; _split_vars` with a core that sees nothing but the adjacency matrix and the seed vector
+satisfies the clause. Missing for `bipartite_as_block_full`: that each estimator of the library has this shape — true
+by reading for PageRank (with seeds), Katz, Paris, Louvain / Leiden (newman, potts), the classifiers, Diffusion,
+Spectral, RandomProjection, KCenters; false where the code looks at the `bipartite` flag or at B again (the
+known findings); checked on the implementation by the harness. -/
+theorem bipartite_as_block_partial {ε ρ : Type} (d : Rat)
+    (core : (n : Nat) → (Nat → Nat → Rat) → List Rat → Except ε (List ρ)) (seedErr : PyErr → ε) :
+    BipartiteAsBlock (viaBlock d core seedErr) := by
+  intro nRow nCol B vr vc s hs
+  have hs' : stackValues nRow nCol vr vc d = .ok s := hs
+  have hlen := stackValues_length hs'
+  simp only [viaBlock, hs', getValues_arr_ok d hlen]
+
+/-- Non-vacuity: the "sum of the neighbours' seeds" core behind the plumbing, B = [[1, 1]], row seed {0: 3}. -/
+example : ((viaBlock (ε := PyErr) 0 (fun n A s => .ok (tab n fun i => sumQ (tab n fun j => A i j * s.getD j 0))) id).fitBip
+    1 2 (fun _ _ => 1) (some (.dict [(0, 3)])) none).toOption = some ([0], [0], [3, 3]) := by decide +kernel
+
+/-! ### Diffusion and Dirichlet (the model of C14) -/
+
+/-- **Diffusion and Dirichlet treat a biadjacency matrix as its block adjacency** (the main clause, for the model of
+C14 — `SkNet/Model/Heat.lean`, tied to regression/diffusion.py by C14's run lines): whenever the input is treated as
+bipartite (rectangular, `force_bipartite`, or `values_row` / `values_col` given — in any of the array / list / dict
+forms), `fit` on `B` returns exactly the split at `n_row` of what `fit` returns on the block adjacency
+`[[0,B],[Bᵀ,0]]` when it is handed, as `values`, the stacked seed vector `p.seeds`; errors included. -/
+theorem diffusion_bipartite_as_block (algo : Heat.Algo) (nRow nCol nnz : Nat) (B : Nat → Nat → Rat) (a : Heat.Args)
+    (nIter : Int) (α : Rat) (p : Heat.Prepared)
+    (hp : Heat.getAdjacencyValues nRow nCol nnz B a = .ok p) (hb : p.bipartite = true) :
+    Heat.fit algo nRow nCol nnz B a nIter α =
+      (Heat.fit algo (nRow + nCol) (nRow + nCol) nnz (blockUndirected nRow B)
+          { values := .arr p.seeds, init := a.init } nIter α).map
+        (fun o => Heat.splitVars true nRow o.values) := by
+  obtain ⟨hnnz, hn, hadj, hlen⟩ := Bip.heat_prepared_bipartite hp hb
+  -- the call on the block adjacency prepares the same graph and the same seeds
+  have hp' : Heat.getAdjacencyValues (nRow + nCol) (nRow + nCol) nnz (blockUndirected nRow B)
+      { values := .arr p.seeds, init := a.init } = .ok ⟨nRow + nCol, blockUndirected nRow B, p.seeds, false⟩ := by
+    unfold Heat.getAdjacencyValues
+    simp [hnnz, Heat.Values.isNone, Heat.getValues, hlen]
+  have hfv : ∀ k, Heat.fitVector algo ⟨nRow + nCol, blockUndirected nRow B, p.seeds, false⟩ a.init k α =
+      Heat.fitVector algo p a.init k α := by
+    intro k
+    obtain ⟨pn, padj, pseeds, pb⟩ := p
+    simp only at hn hadj
+    subst hn; subst hadj
+    rfl
+  unfold Heat.fit
+  by_cases hit : nIter ≤ 0
+  · simp [hit, Except.map]
+  · simp only [hit, if_false, hp, hp', hfv]
+    cases Heat.fitVector algo p a.init nIter.toNat α with
+    | error e => rfl
+    | ok v => simp [Except.map, Heat.splitVars, hb]
+
+/-- Non-vacuity: Dirichlet, 2 rounds, on B = [[1, 1]] with the column seed {0: 4}; the flag is implied. -/
+example :
+    ((Heat.getAdjacencyValues 1 2 2 (fun _ _ => 1) { valuesCol := .dict [(0, 4)] }).toOption.map
+      fun p => (p.bipartite, p.seeds)) = some (true, [-1, 4, -1]) ∧
+    (Heat.fit .dirichlet 1 2 2 (fun _ _ => 1) { valuesCol := .dict [(0, 4)] } 2 (1/2)).toOption.map (·.valuesCol)
+      = some (some [4, 4]) := by decide +kernel
+
+/-! ### the path functions (the model of C10) -/
+
+/-- **get_distances treats a biadjacency matrix as its block adjacency** (the main clause for `get_distances`, every
+argument combination the routing accepts with bipartite treatment: rectangular input, `force_bipartite`, `source_row`
+/ `source_col`, `source` as alias, transposed or not): the pair it returns is the split at `n_row` of the one vector
+`get_distances` returns on the block graph `[[0,B],[Bᵀ,0]]` for the block-numbered sources (row source `i` at `i`,
+column source `j` at `n_row + j`). -/
+theorem distances_bipartite_as_block (nRow0 nCol0 : Nat) (edge0 : Nat → Nat → Bool) (a : Path.DistArgs)
+    (hb : (Path.routeSpec nRow0 nCol0 a).bipartite = true)
+    (hv : ¬ (Path.routeSpec nRow0 nCol0 a).ValueError a) (hi : ¬ (Path.routeSpec nRow0 nCol0 a).IndexError) :
+    ∃ d, Path.getDistances (Path.routeSpec nRow0 nCol0 a).nNodes (Path.routeSpec nRow0 nCol0 a).nNodes
+            (Path.blockEdge (Path.routeSpec nRow0 nCol0 a).nRow (if a.transpose then (fun i j => edge0 j i) else edge0))
+            { source := some (Bip.blockSources (Path.routeSpec nRow0 nCol0 a)) } = .ok (some (.single d)) ∧
+         Path.getDistances nRow0 nCol0 edge0 a =
+            .ok (some (.pair (d.take (Path.routeSpec nRow0 nCol0 a).nRow) (d.drop (Path.routeSpec nRow0 nCol0 a).nRow))) := by
+  obtain ⟨m, hroute, hmlen, hm⟩ := (C10.route_spec nRow0 nCol0 a).2.2 hv hi
+  have hnn0 : (Path.routeSpec nRow0 nCol0 a).nNodes =
+      if (Path.routeSpec nRow0 nCol0 a).bipartite then
+        (Path.routeSpec nRow0 nCol0 a).nRow + (Path.routeSpec nRow0 nCol0 a).nCol
+      else (Path.routeSpec nRow0 nCol0 a).nRow := rfl
+  have hnn : (Path.routeSpec nRow0 nCol0 a).nNodes =
+      (Path.routeSpec nRow0 nCol0 a).nRow + (Path.routeSpec nRow0 nCol0 a).nCol := by
+    rw [hnn0, hb]; rfl
+  clear hnn0
+  generalize hs : Path.routeSpec nRow0 nCol0 a = s at *
+  -- the plain call on the block graph
+  let a' : Path.DistArgs := { source := some (Bip.blockSources s) }
+  have hrow : ∀ i ∈ s.rowSrc.getD [], i < s.nNodes := fun i hi' =>
+    Nat.lt_of_not_le fun hle => hi (Or.inl ⟨i, hi', hle⟩)
+  have hcol : ∀ j ∈ s.colSrc.getD [], s.nRow + j < s.nNodes := fun j hj =>
+    Nat.lt_of_not_le fun hle => hi (Or.inr ⟨j, hj, hle⟩)
+  have hs' : Path.routeSpec s.nNodes s.nNodes a' =
+      ⟨s.nNodes, s.nNodes, false, s.nNodes, some (Bip.blockSources s), none⟩ := by
+    simp [Path.routeSpec, a']
+  have hv' : ¬ (Path.routeSpec s.nNodes s.nNodes a').ValueError a' := by
+    rw [hs']; simp [Path.RouteSpec.ValueError]
+  have hi' : ¬ (Path.routeSpec s.nNodes s.nNodes a').IndexError := by
+    rw [hs']
+    simp only [Path.RouteSpec.IndexError, Option.getD_some, Option.getD_none, List.not_mem_nil, false_and, exists_false,
+      or_false, not_exists, not_and, Nat.not_le]
+    intro i hmem
+    simp only [Bip.blockSources, List.mem_append, List.mem_map] at hmem
+    rcases hmem with h | ⟨j, hj, rfl⟩
+    · exact hrow i h
+    · exact hcol j hj
+  obtain ⟨m', hroute', hmlen', hm'⟩ := (C10.route_spec s.nNodes s.nNodes a').2.2 hv' hi'
+  rw [hs'] at hroute' hmlen' hm'
+  simp only at hroute' hmlen' hm'
+  -- the two masks are the same list
+  have hmm : m' = m := by
+    apply List.ext_getElem?
+    intro v
+    by_cases hvn : v < s.nNodes
+    · have e1 : m'[v]? = some (m'.getD v false) := by
+        rw [List.getD_eq_getElem?_getD, List.getElem?_eq_getElem (by omega)]; rfl
+      have e2 : m[v]? = some (m.getD v false) := by
+        rw [List.getD_eq_getElem?_getD, List.getElem?_eq_getElem (by omega)]; rfl
+      rw [e1, e2, hm' v hvn, hm v hvn]
+      congr 1
+      have : (⟨s.nNodes, s.nNodes, false, s.nNodes, some (Bip.blockSources s), none⟩ : Path.RouteSpec).isSource v =
+          (Bip.blockSources s).contains v := by
+        simp [Path.RouteSpec.isSource]
+      rw [this, Bip.blockSources_contains s v]
+    · rw [List.getElem?_eq_none (by omega), List.getElem?_eq_none (by omega)]
+  subst hmm
+  obtain ⟨d, hd, _, _⟩ := C10.bfs_exact s.nNodes
+    (Path.blockEdge s.nRow (if a.transpose then (fun i j => edge0 j i) else edge0)) m'
+  refine ⟨d, ?_, ?_⟩
+  · unfold Path.getDistances
+    simp only [hroute', bind, Except.bind, Path.routedEdge, a', Bool.false_eq_true, if_false, hd]
+    rfl
+  · unfold Path.getDistances
+    simp only [hroute, bind, Except.bind, Path.routedEdge, hb, if_true, hd]
+    rfl
+
+/-- Non-vacuity: a 2×3 biadjacency, transposed (3 row nodes), `source` as alias of `source_row` with a column
+source: the block sources are [2, 3 + 1]. -/
+example :
+    (Path.routeSpec 2 3 { source := some [2], sourceCol := some [1], transpose := true }).bipartite = true ∧
+    ¬ (Path.routeSpec 2 3 { source := some [2], sourceCol := some [1], transpose := true }).ValueError
+        { source := some [2], sourceCol := some [1], transpose := true } ∧
+    ¬ (Path.routeSpec 2 3 { source := some [2], sourceCol := some [1], transpose := true }).IndexError ∧
+    Bip.blockSources (Path.routeSpec 2 3 { source := some [2], sourceCol := some [1], transpose := true }) = [2, 4] := by
+  decide
+
+/-- **get_shortest_path treats a biadjacency matrix as its block adjacency** (every argument combination with
+bipartite treatment, in particular `source` together with `force_bipartite=True` — the call of defect F1): the DAG it
+returns is the DAG `get_shortest_path` returns on the block graph `[[0,B],[Bᵀ,0]]` for the block-numbered sources,
+on `n_row + n_col` nodes. -/
+theorem shortestPath_bipartite_as_block (nRow0 nCol0 : Nat) (edge0 : Nat → Nat → Bool) (a : Path.PathArgs)
+    (hb : (Path.routeSpec nRow0 nCol0 a.toDist).bipartite = true)
+    (hv : ¬ (Path.routeSpec nRow0 nCol0 a.toDist).ValueError a.toDist)
+    (hi : ¬ (Path.routeSpec nRow0 nCol0 a.toDist).IndexError) :
+    Path.getShortestPath nRow0 nCol0 edge0 a =
+      Path.getShortestPath (nRow0 + nCol0) (nRow0 + nCol0) (Path.blockEdge nRow0 edge0)
+        { source := some (Bip.blockSources (Path.routeSpec nRow0 nCol0 a.toDist)) } ∧
+    ∃ ps, Path.getShortestPath nRow0 nCol0 edge0 a = .ok (some (nRow0 + nCol0, ps)) := by
+  obtain ⟨d, hblock, hbip⟩ := distances_bipartite_as_block nRow0 nCol0 edge0 a.toDist hb hv hi
+  have hrow : (Path.routeSpec nRow0 nCol0 a.toDist).nRow = nRow0 := rfl
+  have hcol : (Path.routeSpec nRow0 nCol0 a.toDist).nCol = nCol0 := rfl
+  have hnn0 : (Path.routeSpec nRow0 nCol0 a.toDist).nNodes =
+      if (Path.routeSpec nRow0 nCol0 a.toDist).bipartite then
+        (Path.routeSpec nRow0 nCol0 a.toDist).nRow + (Path.routeSpec nRow0 nCol0 a.toDist).nCol
+      else (Path.routeSpec nRow0 nCol0 a.toDist).nRow := rfl
+  have hnn : (Path.routeSpec nRow0 nCol0 a.toDist).nNodes = nRow0 + nCol0 := by
+    rw [hnn0, hb, hrow, hcol]; rfl
+  have htr : a.toDist.transpose = false := rfl
+  rw [hrow, hnn] at hblock
+  rw [hrow] at hbip
+  simp only [htr, Bool.false_eq_true, if_false] at hblock
+  have hda : (Path.DistArgs.mk a.source a.sourceRow a.sourceCol false a.forceBipartite) = a.toDist := rfl
+  constructor
+  · unfold Path.getShortestPath
+    rw [hda, hbip]
+    simp only [hblock, bind, Except.bind, List.take_append_drop, pure, Except.pure]
+    simp
+  · refine ⟨Path.pairsOf (Path.getDagEntries (Path.entriesOf (nRow0 + nCol0) (Path.blockEdge nRow0 edge0)) d), ?_⟩
+    unfold Path.getShortestPath
+    rw [hda, hbip]
+    simp only [bind, Except.bind, List.take_append_drop, pure, Except.pure]
+
+/-- Non-vacuity: the call of defect F1 — `get_shortest_path(A, source=0, force_bipartite=True)` on a 2×2 matrix —
+returns the DAG on 4 nodes. -/
+example :
+    (Path.routeSpec 2 2 ({ source := some [0], forceBipartite := true } : Path.PathArgs).toDist).bipartite = true ∧
+    (Path.getShortestPath 2 2 (fun i j => i != j) { source := some [0], forceBipartite := true }).toOption
+      = some (some (4, [(0, 3)])) := by decide
+
+/-- **distances are exact on bipartite input**: for every accepted argument combination with bipartite treatment,
+`get_distances` returns `(d[:n_row], d[n_row:])` with `d` the exact hop distances in the block graph from the
+block-numbered sources (C10's `getDistances_exact`, read for bipartite input). -/
+theorem distances_bipartite (nRow0 nCol0 : Nat) (edge0 : Nat → Nat → Bool) (a : Path.DistArgs)
+    (hb : (Path.routeSpec nRow0 nCol0 a).bipartite = true)
+    (hv : ¬ (Path.routeSpec nRow0 nCol0 a).ValueError a) (hi : ¬ (Path.routeSpec nRow0 nCol0 a).IndexError) :
+    ∃ d, Path.getDistances nRow0 nCol0 edge0 a =
+          .ok (some (.pair (d.take (Path.routeSpec nRow0 nCol0 a).nRow) (d.drop (Path.routeSpec nRow0 nCol0 a).nRow))) ∧
+      Path.Exact (Path.routeSpec nRow0 nCol0 a).nNodes
+        (Path.blockEdge (Path.routeSpec nRow0 nCol0 a).nRow (if a.transpose then (fun i j => edge0 j i) else edge0))
+        (Path.routeSpec nRow0 nCol0 a).isSource d := by
+  obtain ⟨d, hd, hex⟩ := C10.getDistances_exact nRow0 nCol0 edge0 a hv hi
+  refine ⟨d, ?_, ?_⟩
+  · simpa [hb] using hd
+  · simpa [hb] using hex
+
+/-- **the shortest-path DAG is exact on bipartite input** (C10's `getShortestPath_exact`, read for bipartite input):
+its edges are exactly the edges `(i, j)` of the block graph with `i` reachable from the block-numbered sources and
+`dist j = dist i + 1`. -/
+theorem shortestPath_bipartite (nRow0 nCol0 : Nat) (edge0 : Nat → Nat → Bool) (a : Path.PathArgs)
+    (hb : (Path.routeSpec nRow0 nCol0 a.toDist).bipartite = true)
+    (hv : ¬ (Path.routeSpec nRow0 nCol0 a.toDist).ValueError a.toDist)
+    (hi : ¬ (Path.routeSpec nRow0 nCol0 a.toDist).IndexError) :
+    ∃ ps, Path.getShortestPath nRow0 nCol0 edge0 a = .ok (some ((Path.routeSpec nRow0 nCol0 a.toDist).nNodes, ps)) ∧
+      ∀ i j, (i, j) ∈ ps ↔
+        i < (Path.routeSpec nRow0 nCol0 a.toDist).nNodes ∧ j < (Path.routeSpec nRow0 nCol0 a.toDist).nNodes ∧
+        Path.blockEdge nRow0 edge0 i j = true ∧
         ∃ k : Nat,
-          Path.IsDist (nRow + nCol) (Path.blockEdge nRow b)
-            (fun v => sr.contains v || (decide (nRow ≤ v) && sc.contains (v - nRow))) i k ∧
-          Path.IsDist (nRow + nCol) (Path.blockEdge nRow b)
-            (fun v => sr.contains v || (decide (nRow ≤ v) && sc.contains (v - nRow))) j (k+1) := by
-  obtain ⟨d, hd, hex⟩ := C10.getDistances_bipartite_exact nRow nCol b sr sc hsr hsc
-  refine ⟨Path.pairsOf (Path.getDagEntries (Path.entriesOf (nRow + nCol) (Path.blockEdge nRow b)) d), ?_,
-    fun i j => C10.shortestPathDag_exact (nRow + nCol) (Path.blockEdge nRow b) _ d hex i j⟩
-  unfold Path.getShortestPath
-  have : ({ source := none, sourceRow := some sr, sourceCol := some sc, forceBipartite := false } : Path.DistArgs)
-      = { sourceRow := some sr, sourceCol := some sc } := rfl
-  simp only [bind, Except.bind]
-  rw [this, hd]
-  simp [pure, Except.pure, List.take_append_drop]
+          Path.IsDist (Path.routeSpec nRow0 nCol0 a.toDist).nNodes (Path.blockEdge nRow0 edge0)
+            (Path.routeSpec nRow0 nCol0 a.toDist).isSource i k ∧
+          Path.IsDist (Path.routeSpec nRow0 nCol0 a.toDist).nNodes (Path.blockEdge nRow0 edge0)
+            (Path.routeSpec nRow0 nCol0 a.toDist).isSource j (k+1) := by
+  obtain ⟨ps, hps, hiff⟩ := C10.getShortestPath_exact nRow0 nCol0 edge0 a hv hi
+  exact ⟨ps, hps, by simpa [hb] using hiff⟩
+
+/-- Non-vacuity of `distances_bipartite` / `shortestPath_bipartite`: a 2×2 biadjacency with only a column source. -/
+example :
+    (Path.routeSpec 2 2 ({ sourceCol := some [0] } : Path.PathArgs).toDist).bipartite = true ∧
+    ¬ (Path.routeSpec 2 2 ({ sourceCol := some [0] } : Path.PathArgs).toDist).ValueError
+        ({ sourceCol := some [0] } : Path.PathArgs).toDist ∧
+    ¬ (Path.routeSpec 2 2 ({ sourceCol := some [0] } : Path.PathArgs).toDist).IndexError ∧
+    (Path.getShortestPath 2 2 (fun i j => i == j) { sourceCol := some [0] }).toOption = some (some (4, [(2, 0)])) := by
+  decide
 
 end SkNet.C03
